@@ -293,6 +293,18 @@ fn main() {
         }}
         st
     }).reduce(Stats::default, Stats::merge);
+    // the same objects in the transposed order: one variable assignment, every schema in turn on one thread - consecutive
+    // contexts then differ in the schema only (a value memoised per variable assignment shows up as a stale rendering)
+    let s1t = asg.par_iter().map(|(name, v)| {
+        let mut st = Stats::default();
+        for c in &cores { for e in &extras { for b in &builds {
+            if c.is_empty() && e.is_empty() && b.is_empty() { continue; }
+            let s = RSchema { core: c.clone(), extra_core: e.clone(), build: b.clone() };
+            judge_object(&ctx, &s, name, v, &mut st);
+        }}}
+        st
+    }).reduce(Stats::default, Stats::merge);
+    let s1 = s1.merge(s1t);
     // length sweep: one object whose branch name has every length 0..=400 (thorough 2000), so that the rendered versions
     // cross every total length up to ~800 (2 x the name) characters: every part and the docker form stay complete
     let s1 = {
@@ -331,9 +343,56 @@ fn main() {
             for tz in ["UTC", "JST-9"] { let o = zv::run_bin(&args, Some(&doc), &[("TZ", tz)], None); s5.inc("process_conformance_cases"); if let Err(e) = zv::conforms(&r, &o) { ctx.violation("binary_differs_from_inprocess", format!("{t} TZ={tz}"), json!({"kind":"proc"}), e); } }
         }
     }
-    let all = s1.merge(s2).merge(s3).merge(s4).merge(s5.clone());
+    // operations, then a template: every set of up to two override / bump flags (incl. index-addressed ones that rewrite a literal
+    // schema component and leave the variables alone) on two documents with literal components; the template variables of that
+    // run equal what the same run prints with --output-format semver / pep440, and the parts recompose
+    let mut s6 = Stats::default();
+    {
+        let docs = [
+            bind::zerv(&RSchema { core: vec![V(RVar::Major), V(RVar::Minor), V(RVar::Patch), UInt(5)], extra_core: vec![V(RVar::PreRelease), Str("x".into()), V(RVar::Post)], build: vec![Str("nightly".into()), UInt(1), V(RVar::BumpedBranch)] }, &RVars { dirty: Some(false), ..asg[0].1.clone() }).unwrap().to_string(),
+            bind::zerv(&RSchema { core: vec![UInt(2024), V(RVar::Minor), V(RVar::Patch)], extra_core: vec![UInt(0)], build: vec![Str("b".into())] }, &RVars { major: Some(1), minor: Some(2), patch: Some(3), ..Default::default() }).unwrap().to_string(),
+        ];
+        let flags: Vec<Vec<&str>> = vec![vec!["--build", "0=stable"], vec!["--build", "1=7"], vec!["--bump-build", "1=4"], vec!["--bump-build", "0=weekly"], vec!["--core", "0=9"], vec!["--core=-1=8"], vec!["--bump-core", "~1"], vec!["--extra-core", "0=6"], vec!["--extra-core", "1=zz"],
+            vec!["--bump-extra-core", "0"], vec!["--major", "5"], vec!["--bump-minor"], vec!["--bump-patch", "2"], vec!["--pre-release-label", "beta"], vec!["--post", "4"], vec!["--bump-post"], vec!["--bumped-branch", "topic/9"], vec!["--custom", "{\"k\":3}"]];
+        let mut sets: Vec<Vec<&str>> = vec![vec![]];
+        for (i, a) in flags.iter().enumerate() { sets.push(a.clone()); for b in flags.iter().skip(i + 1) { if a[0].split('=').next() != b[0].split('=').next() { sets.push([a.clone(), b.clone()].concat()); } } }
+        let tpl = format!("{{{{ semver }}}}{SEP}{{{{ pep440 }}}}{SEP}{{{{ semver_obj.base_part }}}}{SEP}{{{{ semver_obj.pre_release_part }}}}{SEP}{{{{ semver_obj.build_part }}}}{SEP}{{{{ pep440_obj.base_part }}}}{SEP}{{{{ pep440_obj.pre_release_part }}}}{SEP}{{{{ pep440_obj.build_part }}}}");
+        let jobs: Vec<(usize, &Vec<&str>)> = (0..docs.len()).flat_map(|d| sets.iter().map(move |f| (d, f))).collect();
+        let st = jobs.par_iter().enumerate().map(|(ji, (d, f))| {
+            let mut st = Stats::default();
+            st.inc("ops_then_template_cases");
+            let base: Vec<String> = ["version", "--source", "stdin"].iter().map(|x| x.to_string()).chain(f.iter().map(|x| x.to_string())).collect();
+            let with = |extra: &[&str]| -> Vec<String> { base.iter().cloned().chain(extra.iter().map(|x| x.to_string())).collect() };
+            let key = format!("doc {d} {}", f.join(" "));
+            let case = json!({"kind":"ops-template","doc":d,"flags":f});
+            let (rs, rp, rt) = (zv::run_cli(&with(&["--output-format", "semver"]), Some(&docs[*d])), zv::run_cli(&with(&["--output-format", "pep440"]), Some(&docs[*d])), zv::run_cli(&with(&["--output-template", &tpl]), Some(&docs[*d])));
+            match (&rs, &rp, &rt) {
+                (Ok(Res::Ok(sv)), Ok(Res::Ok(pv)), Ok(Res::Ok(t))) => {
+                    st.inc("ops_then_template_compared");
+                    let parts: Vec<&str> = t.split(SEP).collect();
+                    if parts.len() != 8 { ctx.violation("template_output_shape", key, case, format!("{t:?}")); return st; }
+                    if parts[0] != sv || parts[1] != pv { ctx.violation("template_version_differs_from_formatter_after_operations", key.clone(), case.clone(), format!("template semver {:?} / pep440 {:?}; --output-format prints {sv:?} / {pv:?}", parts[0], parts[1])); }
+                    let mut re = parts[2].to_string(); if !parts[3].is_empty() { re.push('-'); re.push_str(parts[3]); } if !parts[4].is_empty() { re.push('+'); re.push_str(parts[4]); }
+                    if re != *sv { ctx.violation("semver_parts_do_not_recompose_after_operations", key.clone(), case.clone(), format!("parts {:?} vs {sv:?}", &parts[2..5])); }
+                    if !pv.starts_with(parts[5]) || (!parts[7].is_empty() && !pv.ends_with(&format!("+{}", parts[7]))) { ctx.violation("pep440_parts_do_not_recompose_after_operations", key.clone(), case.clone(), format!("parts {:?} vs {pv:?}", &parts[5..8])); }
+                    if ji % 6 == 0 { let a = with(&["--output-template", &tpl]); let o = zv::run_bin(&a, Some(&docs[*d]), &[], None); st.inc("process_conformance_cases"); if let Err(e) = zv::conforms(&rt, &o) { ctx.violation("binary_differs_from_inprocess", key, json!({"kind":"proc"}), e); } }
+                }
+                (Err(p), _, _) | (_, Err(p), _) | (_, _, Err(p)) => ctx.violation(&format!("panic@{}", p.file()), key, case, p.message.clone()),
+                _ => {
+                    // the operation set is rejected (e.g. a text value on a numeric literal): then all three runs are rejected
+                    st.inc("ops_then_template_rejected");
+                    let oks = [matches!(rs, Ok(Res::Ok(_))), matches!(rp, Ok(Res::Ok(_))), matches!(rt, Ok(Res::Ok(_)))];
+                    if oks.iter().any(|x| *x) && !(oks[0] && oks[2] && !oks[1]) { ctx.violation("template_run_accepts_what_formatter_run_rejects", key, case, format!("semver {:?} pep440 {:?} template {:?}", oks[0], oks[1], oks[2])); }
+                }
+            }
+            st
+        }).reduce(Stats::default, Stats::merge);
+        s6 = s6.merge(st);
+    }
+    s5.add("process_conformance_cases", s6.get("process_conformance_cases"));
+    let all = s1.merge(s2).merge(s3).merge(s4).merge(s5.clone()).merge(s6);
     let mut cov = Coverage::default();
-    cov.states = all.get("objects") + all.get("function_texts") + instants.len() as u64;
+    cov.states = all.get("objects") + all.get("function_texts") + instants.len() as u64 + all.get("ops_then_template_cases");
     cov.transitions = all.get("objects") + all.get("function_calls") + all.get("format_timestamp_calls") + all.get("scalar_checks");
     cov.evaluations = cov.transitions;
     cov.traces_validated = cov.transitions;
